@@ -1,7 +1,7 @@
 CONSTANTS
   Variant = "hookspin"
   Datas <- DatasQ
-  Limits = {0, 2, 4, 6}
+  Limits = {2, 6}
   Modes = {TRUE, FALSE}
   RIs = {TRUE}
   KMax = 2
